@@ -340,7 +340,15 @@ def part_spec(part, sp=None, shorthand=False):
         if not is_prim and M.simplify(c)["c"] == "null":
             continue  # a null component is spelled by leaving it out
         single_leaf = is_prim or c.get("c") == "leaf"
-        if single_leaf and sp.pick([False, True], "shorthand-part"):
+        if (not is_prim and c.get("c") == "and" and c["a"].get("c") == "leaf" and M.simplify(c["b"])["c"] != "null"
+                and c["a"]["kind"] == k and sp.pick([False, True], "shorthand+long")):
+            # `a & b` for one datum written as the shorthand for a plus the long form for b
+            s = leaf_spec(c["a"], sp)
+            (sk, sv), = s.items()
+            first, _, rest = sk.partition(".")
+            out[first.lower() + "." + rest] = sv
+            out[k] = cond_spec(c["b"], sp)
+        elif single_leaf and sp.pick([False, True], "shorthand-part"):
             s = _comp_spec(c, k, sp)
             (sk, sv), = s.items()
             # the shorthand is recognised by its lower-case `key.` / `index.` / `value.` prefix
